@@ -165,7 +165,7 @@ impl Ctx {
 				let msg: String = p.chars().take(160).collect();
 				// a monitor without counterparty_node_id is refused by a deliberate panic ("no updates since v0.0.118 … no longer
 				// supported"): a documented refusal, counted, not a robustness failure
-				if msg.contains("These monitors are no longer supported") { self.bump("corrupt:deliberate-panic-unsupported-legacy-monitor"); }
+				if p.contains("These monitors are no longer supported") { self.bump("corrupt:deliberate-panic-unsupported-legacy-monitor"); }
 				else { self.fail(format!("{}::read panics on a corrupted / malformed encoding: {} | input ({} bytes): {}", o.class, msg, bytes.len(), hex(&bytes[..bytes.len().min(400)]))); }
 				(format!("panic {}", p.replace('\n', " ").chars().take(60).collect::<String>()), None, 0)
 			},
@@ -331,7 +331,12 @@ fn check_node(net: &Net, i: usize, st: &mut St, ctx: &mut Ctx, op: &str) {
 				let re = m2.encode();
 				if re.len() != bytes.len() || histogram(&re) != histogram(&bytes) { ctx.fail(format!("after {}: monitor of node {} re-encodes differently ({} vs {} bytes)", op, i, bytes.len(), re.len())); }
 				if re == bytes { st.n_mon_identical += 1; }
-				if !mon.verif_eq_modulo_unserialized(&m2) { ctx.fail(format!("after {}: monitor of node {} != its round trip", op, i)); }
+				if !mon.verif_eq_modulo_unserialized(&m2) {
+					let m3 = read_mon(&re, keys).ok();
+					ctx.fail(format!("after {}: monitor of node {} != its round trip: fields {:?} {:?} differ (re-encoding {}; second round trip {} the first)", op, i, mon.verif_unequal_fields(&m2), mon.verif_unequal_onchain_fields(&m2), if re == bytes { "byte-identical" } else { "a permutation" },
+						match m3 { Some(m3) => if m2.verif_eq_modulo_unserialized(&m3) { "==" } else { "!=" }, None => "unreadable unlike" }));
+					if std::env::var("C12_DUMP").is_ok() { eprintln!("C12_DUMP monitor {}", hex(&bytes)); }
+				}
 			},
 		}
 		// new updates
@@ -648,6 +653,7 @@ fn main() {
 		let steps = if args.thorough { 80 + rng.below(160) as usize } else { 60 + rng.below(60) as usize };
 		let with_close = sc % 2 == 1;
 		let mut sub = Rng::new(rng.next());
+		if let Ok(only) = std::env::var("C12_ONLY") { if only.parse::<usize>().ok() != Some(sc) { continue; } }
 		st.prev.clear(); st.seen_ev.clear();
 		let fails_before = ctx.rec.oracle_failures.len();
 		match guarded(AssertUnwindSafe(|| scenario(&mut sub, &mut st, &mut ctx, steps, with_close))) {
